@@ -65,8 +65,17 @@ def concretize_args(args, kwargs, model):
             return eval_int(model, v)
         if isinstance(v, (list, tuple)):
             return type(v)(conv(x) for x in v)
-        if isinstance(v, Opaque) and hasattr(v, 'concretize'):
-            return v.concretize(model)
+        if isinstance(v, Opaque) and v.cls in ('model', 'func') and 'rowwise' in v.attrs:
+            from .models import RecordingModel, RecordingFunc
+            rw = v.attrs['rowwise']
+            tr = [[eval_int(model, d) for d in t] for t in rw.trailing]
+            cls = RecordingModel if v.cls == 'model' else RecordingFunc
+            return cls(rw.name, rw.k, rw.tuple_kind, tr)
+        if isinstance(v, Opaque) and v.cls == 'shuffle_fn':
+            from .models import RecordingShuffle
+            return RecordingShuffle()
+        if isinstance(v, dict):
+            return {k: conv(x) for k, x in v.items()}
         if isinstance(v, Opaque) and 'concretize' in v.attrs:
             return v.attrs['concretize'](model)
         return v
@@ -122,8 +131,7 @@ class PropertyRun:
         return reports
 
     def triage(self):
-        """sat -> replay on the real code; unknown/error/unsupported -> undecided"""
-        from .concrete import check_concrete, to_json
+        """sat -> replay on the real code; unknown/error/unsupported -> small-scope refutation, else undecided"""
         world = self.world
         for rep in self.reports:
             c = world.contracts[rep.qualname]
@@ -132,36 +140,65 @@ class PropertyRun:
             if getattr(c, 'expect_returns', True) and rep.returns == 0 and not rep.unsupported:
                 self.undecided.append({'obligation': rep.qualname, 'reason': 'vacuity guard: no normal-return path reachable'})
             bad = [o for o in rep.obligations if o.result != 'unsat']
-            seen_replays = set()
+            groups = {}
             for ob in bad:
-                if ob.result != 'sat':
-                    self.undecided.append({'obligation': ob.name, 'reason': '%s (%s)' % (ob.result, ob.detail)})
+                groups.setdefault(self.cfg_name_of(ob), []).append(ob)
+            for cname in sorted({c.cfg_name(cfg) for cfg in c.configs()} & ({u[0] for u in rep.unsupported} | set(groups))):
+                obs = groups.get(cname, [])
+                cfg = [cfg for cfg in c.configs() if c.cfg_name(cfg) == cname][0]
+                confirmed = False
+                seen = set()
+                definite = []
+                for ob in obs:
+                    if ob.result == 'sat' and ob.kind != 'loop-pres' and not confirmed:
+                        confirmed = self.replay_counter_model(rep.qualname, c, cfg, ob, seen, scope=None)
+                if not confirmed:
+                    confirmed = self.small_scope_refute(rep.qualname, c, cfg, cname, seen)
+                if confirmed:
                     continue
-                if ob.kind in ('loop-pres',):
-                    # failed inductiveness is a failed proof, not a counterexample (DESIGN 2.7)
-                    self.undecided.append({'obligation': ob.name, 'reason': 'invariant not inductive (sat)'})
-                    continue
-                self.replay_counter_model(rep, c, ob, seen_replays)
+                for ob in obs:
+                    if ob.result == 'sat' and not getattr(ob, 'approx', True) and ob.kind not in ('loop-pres',):
+                        info = {'property': self.pid, 'obligation': ob.name, 'function': rep.qualname, 'cfg': cfg,
+                                'solver': {'result': 'sat', 'backend': ob.backend, 'seconds': round(ob.seconds, 3),
+                                           'goal': str(ob.goal)[:2000]}, 'no_failing_input_found': True}
+                        path = self.write_replay(info)
+                        self.violations.append({'what': ob.name + ' refuted by the solver on an entry path; no concrete failing input was found',
+                                                'replay': path, 'nofail': True, 'obligation': ob.name})
+                    else:
+                        why = 'invariant not inductive / obligation downstream of a havoc refuted (sat)' if ob.result == 'sat' else '%s (%s)' % (ob.result, ob.detail)
+                        self.undecided.append({'obligation': ob.name, 'reason': why})
 
-    def cfg_of(self, c, ob):
+    def cfg_name_of(self, ob):
         nm = ob.name
         i = nm.index('[')
         j = nm.index(']', i)
-        cname = nm[i + 1:j]
-        for cfg in c.configs():
-            if c.cfg_name(cfg) == cname:
-                return cfg
-        return {}
+        return nm[i + 1:j]
 
-    def replay_counter_model(self, rep, c, ob, seen):
+    def small_scope_refute(self, qualname, c, cfg, cname, seen):
+        """re-generate the obligations of this structural instance with all tensor dimensions
+        concrete and small and recording semantics for assumed callables (complete for that scope);
+        a sat obligation there yields a genuine input, replayed on the real function"""
+        from .contract import verify_function
+        for scope in c.scopes(cfg):
+            try:
+                r2 = verify_function(self.world, c, only_cfg=cname, scope=scope)
+            except Exception:
+                continue
+            smt.discharge(r2.obligations, tier='quick', seed=self.seed)
+            self.small_scope_runs = getattr(self, 'small_scope_runs', 0) + 1
+            for ob in r2.obligations:
+                if ob.result == 'sat' and ob.kind != 'loop-pres':
+                    if self.replay_counter_model(qualname, c, cfg, ob, seen, scope=scope):
+                        return True
+        return False
+
+    def replay_counter_model(self, qualname, c, cfg, ob, seen, scope=None):
         from .concrete import check_concrete, to_json
-        cfg = self.cfg_of(c, ob)
-        info = {'property': self.pid, 'obligation': ob.name, 'function': rep.qualname, 'cfg': cfg,
+        info = {'property': self.pid, 'obligation': ob.name, 'function': qualname, 'cfg': cfg, 'scope': scope,
                 'solver': {'result': 'sat', 'backend': ob.backend, 'seconds': round(ob.seconds, 3)}}
-        confirmed = False
         try:
             ctx = Ctx((), fname='concretize')
-            A = ArgFactory(ctx)
+            A = ArgFactory(ctx, scope)
             args, kwargs = c.make_args(cfg, A)
             dims = []
             from .tensor import Tn
@@ -172,43 +209,46 @@ class PropertyRun:
                 elif isinstance(v, (list, tuple)):
                     for x in v:
                         collect(x)
+                elif isinstance(v, dict):
+                    for x in v.values():
+                        collect(x)
                 elif hasattr(v, 'length') and O.is_sym(getattr(v, 'length')):
                     dims.append(v.length)
+                elif hasattr(v, 'attrs') and 'rowwise' in getattr(v, 'attrs', {}):
+                    for tr in v.attrs['rowwise'].trailing:
+                        dims.extend([d for d in tr if O.is_sym(d)])
             for v in list(args) + list(kwargs.values()):
                 collect(v)
             model = None
-            for bound in (4, 8, None):
+            for bound in (3, 6, None):
                 extra = [d <= bound for d in dims] if bound else []
                 model = smt.model_for(ob, extra=extra)
                 if model is not None:
                     break
             if model is None:
-                info['solver']['note'] = 'model could not be re-derived in process'
-            else:
-                rargs, rkwargs = concretize_args(args, kwargs, model)
-                if hasattr(c, 'repair_concrete'):
-                    rargs, rkwargs = c.repair_concrete(cfg, rargs, rkwargs)
-                info['args'] = to_json(rargs)
-                info['kwargs'] = to_json(rkwargs)
-                key = json.dumps([info['args'], info['kwargs']], sort_keys=True, default=str)
-                pyfn = self.real_function(rep.qualname)
-                outcome, viol = check_concrete(c, cfg, pyfn, rargs, rkwargs)
-                info['observed'] = outcome[0] if outcome[0] != 'ret' else 'returned'
-                info['contract_violations'] = viol
-                confirmed = len(viol) > 0
-                if key in seen and confirmed:
-                    return
-                seen.add(key)
-        except Exception as e:
-            info['replay_error'] = traceback.format_exc()[-600:]
-        if confirmed:
-            path = self.write_replay(info)
-            self.violations.append({'what': '%s: %s' % (ob.name, info['contract_violations'][0]['label']), 'replay': path, 'finding': None,
-                                    'obligation': ob.name})
-        else:
-            info['no_failing_input_found'] = True
-            self.pending_nofail = getattr(self, 'pending_nofail', [])
-            self.pending_nofail.append((ob, info))
+                return False
+            rargs, rkwargs = concretize_args(args, kwargs, model)
+            if hasattr(c, 'repair_concrete'):
+                rargs, rkwargs = c.repair_concrete(cfg, rargs, rkwargs)
+            info['args'] = to_json(rargs)
+            info['kwargs'] = to_json(rkwargs)
+            key = json.dumps([info['args'], info['kwargs']], sort_keys=True, default=str)
+            if key in seen:
+                return False
+            seen.add(key)
+            pyfn = self.real_function(qualname)
+            outcome, viol = check_concrete(c, cfg, pyfn, rargs, rkwargs)
+            info['observed'] = outcome[0] if outcome[0] != 'ret' else 'returned'
+            info['contract_violations'] = viol
+            if viol:
+                path = self.write_replay(info)
+                self.violations.append({'what': '%s: %s' % (ob.name, viol[0]['label'] + ' - ' + viol[0]['detail']), 'replay': path,
+                                        'finding': None, 'obligation': ob.name})
+                return True
+        except Exception:
+            self.replay_errors = getattr(self, 'replay_errors', [])
+            self.replay_errors.append(traceback.format_exc()[-800:])
+        return False
 
     def real_function(self, qualname):
         mod, _, name = qualname.rpartition('.')
@@ -240,11 +280,18 @@ class PropertyRun:
             self.bounded_crash = True
         self.brep = brep
         self.bscope = mod.SCOPE[self.tier]
+        per_finding = {}
         for v in brep.violations:
             info = {'property': self.pid, 'bounded': plan.BOUNDED, 'what': v['what'], 'case': v['case'], 'finding': v.get('finding')}
             kf = self.match_known(v)
             if kf is not None:
-                self.known.append((kf, v))
+                if not any(k is kf for k, _ in self.known):
+                    self.known.append((kf, v))
+                continue
+            fk = v.get('finding') or v['what'][:60]
+            per_finding[fk] = per_finding.get(fk, 0) + 1
+            if per_finding[fk] > 2 or len(self.violations) >= 24:
+                self.suppressed = getattr(self, 'suppressed', 0) + 1
                 continue
             path = self.write_replay(dict(info, obligation='bounded_' + (v.get('finding') or 'case')))
             self.violations.append({'what': v['what'], 'replay': path, 'finding': v.get('finding')})
@@ -264,9 +311,6 @@ class PropertyRun:
         n_dis = sum(1 for o in obs if o.result == 'unsat')
         # obligations refuted by the solver whose model did not replay: still a violation of the named
         # obligation when it sits on an entry path (no havoc upstream), reported without input
-        for ob, info in getattr(self, 'pending_nofail', []):
-            path = self.write_replay(info)
-            self.violations.append({'what': ob.name + ' refuted by the solver', 'replay': path, 'nofail': True, 'obligation': ob.name})
         by_backend = Counter(o.backend for o in obs if o.result == 'unsat')
         solver_s = sum(o.seconds for o in obs)
         funcs = []
@@ -334,7 +378,8 @@ class PropertyRun:
             self.log("  UNDECIDED %s: %s" % (u['obligation'], u['reason']))
         for kf, v in self.known:
             self.log("KNOWN-FINDING: property=%s %s" % (self.pid, kf.get('what', v['what'])))
-        seen_known = set()
+        if getattr(self, 'suppressed', 0):
+            self.log("  (%d further bounded-layer violations of the same kinds not listed individually)" % self.suppressed)
         for v in self.violations:
             suffix = ' no-failing-input-found' if v.get('nofail') else ''
             self.log("VIOLATION property=%s replay=%s%s" % (self.pid, v['replay'], suffix))
@@ -371,6 +416,7 @@ def replay_file(pid, path):
         print("replay: the stored case satisfies the property on the current tree")
         return 0
     from .concrete import check_concrete, from_json
+    from .models import FACTORIES
     world = build_world(plan)
     c = world.contracts[info['function']]
     mod, _, name = info['function'].rpartition('.')
